@@ -97,9 +97,10 @@ def fx_lockcov(fx):
 def fx_aba(fx):
     from rules import sync
     c = _ctx()
-    for fid in ("sync::Stack::bad_pop", "sync::Tagged::ok_pop"):
-        sync.aba(c, Fn(fx.raw(fid)))
-    return _fires(c, "Stack::bad_pop") and not _fires(c, "Tagged::ok_pop")
+    for fid in ("sync::Stack::bad_pop", "sync::Tagged::ok_pop", "sync::Tagged::ok_pop_helper", "sync::Tagged::bad_pop_helper"):
+        sync.aba(c, Fn(fx.raw(fid)), fx=fx)
+    return _fires(c, "Stack::bad_pop") and not _fires(c, "Tagged::ok_pop") and not _fires(c, "Tagged::ok_pop_helper") \
+        and _fires(c, "Tagged::bad_pop_helper")
 
 
 def fx_taint(fx):
@@ -194,3 +195,14 @@ def fx_trunc(fx):
     for nm in ("bad_varint", "ok_varint"):
         n += trunc.check(c, Fn(fx.raw("trunc::" + nm)))
     return n == 2 and _fires(c, "trunc::bad_varint") and not _fires(c, "trunc::ok_varint")
+
+
+def fx_marker(fx):
+    from rules import pair
+    w = Fn(fx.raw("marker::write_field"))
+    res = {}
+    for nm in ("ok_read_field", "bad_read_field"):
+        c = _ctx()
+        n = pair.compare_markers(c, "R-PAIR.marker", nm, w, Fn(fx.raw("marker::" + nm)))
+        res[nm] = (n, len(c.violations))
+    return res["ok_read_field"] == (2, 0) and res["bad_read_field"][0] == 2 and res["bad_read_field"][1] == 1
